@@ -1269,18 +1269,35 @@ def replay(ctx, path):
         src = open(os.path.join(common.REPO, rec['file'][7:]), encoding='utf8').read()
     if src is None or 'line' not in rec:
         return 0
-    print(src if len(src) < 3000 else src[:3000])
+    lines = src.split('\n')
     pos = (rec['line'], rec['column'])
+    for i in range(max(1, pos[0] - 6), min(len(lines), pos[0] + 3) + 1):
+        print('%4d %s %s' % (i, '>' if i == pos[0] else ' ', lines[i - 1]))
     fpath = rec.get('path') or os.path.join(ctx.tmp, 'replay.py')
-    r = _probe_task(dict(src=src, path=fpath, root=rec.get('root') or ctx.tmp, positions=[pos],
-                         want_names=True, import_lines=[]))
+    root = rec.get('root') or ctx.tmp
+    if not os.path.isdir(root):
+        root = ctx.tmp
+        fpath = os.path.join(ctx.tmp, os.path.basename(fpath))
+    ex = extract(src)
+    r = _probe_task(dict(src=src, path=fpath, root=root, positions=[pos], want_names=True, import_lines=ex['imports']))
     print('implementation now: get_context%r = %r' % (pos, r['ctx']))
+    nk = None
     for n in r['names']:
         if (n['line'], n['column']) == pos:
             print('name at the position:', n)
-    ex = extract(src)
-    fc = FileCase(src, fpath, ctx.tmp, ['replay'], 'replay')
-    print('model:', common.coq_show(IMPORTS, ['get_context %s %s' % (g_file(ex, ['replay']), g_pos(pos)),
-                                              'oid (innermost in_body (scopes %s) %s)' % (g_file(ex, ['replay']), g_pos(pos))],
-                                    defs=DEFS))
+            nk = 0 if any(s.namepos == pos for s in ex['scopes']) else 1 if pos in ex['args'] else 2
+    cov = leaf_cover(ex)
+    if pos in cov:
+        E, where, _ = py_oracle(ex, ex['leaves'][cov[pos]][0])
+        print('ast oracle: token %r is in the %s of %s' % (ex['leaves'][cov[pos]][3], where, (E.name, E.id) if E else 'the module'))
+    out = []
+    file_defs(ex, ['replay'], out)
+    exprs = ['get_context the_file %s' % g_pos(pos), 'oid (innermost in_body (scopes the_file) %s)' % g_pos(pos),
+             'oid (innermost_ext_col (scopes the_file) %s)' % g_pos(pos),
+             '(wf_file the_file, on_code the_file %s, lam_cls_free (scopes the_file) %s)' % (g_pos(pos), g_pos(pos))]
+    if nk is not None:
+        exprs.append('parent_chain (scopes the_file) (nk %d) %s' % (nk, g_pos(pos)))
+    print('model (get_context id; strict innermost id; extent/column innermost id; (wf, on_code, lam_cls_free); parent chain):')
+    print(common.coq_show(IMPORTS, exprs, defs=DEFS + '\n'.join(out) + '\n'))
+    print('scope ids:', [(s.id, s.kind, s.name, s.kw) for s in ex['scopes']][:60])
     return 0
